@@ -541,7 +541,9 @@ impl Melda {
                 // An object can be None if its an "empty" delta array descriptor
                 if let Some(object) = object {
                     let digest = digest_object(&object).unwrap(); // Digest of the current object
-                    if digest.ne(winning_revision.digest()) {
+                    // A delta array descriptor is an edit script relative to the winner: a (non-empty)
+                    // script is always an update, even when it equals the previous script
+                    if is_array_descriptor(uuid) || digest.ne(winning_revision.digest()) {
                         // Digest is different, there was an update
                         let rev = Revision::new_updated(digest, winning_revision);
                         let winning_revision = winning_revision.clone();
